@@ -29,7 +29,8 @@ def parse_wheel_tags(filename: str) -> tuple[list[str], list[str], list[str]]:
         )
 
     parts = filename.split("-")
-    python, abi, platform = parts[-3:]
+    # tags are case-insensitive, packaging reports them in lower case
+    python, abi, platform = (part.lower() for part in parts[-3:])
     return python.split("."), abi.split("."), platform.split(".")
 
 
